@@ -18,7 +18,7 @@ from .. import cover, emmon, gen, monitors, ref
 LEVEL = 'exploration'
 JOBS = {'quick': 4, 'thorough': 16}
 REQUIRED_MONITORS = ('em_law_contract', 'equivalences_vs_nearest_anchor')
-REQUIRED_CLASSES = ('geometry:generic', 'geometry:linear-z', 'geometry:linear-x', 'geometry:linear-int',
+REQUIRED_CLASSES = ('reference:through-the-parsers', 'geometry:generic', 'geometry:linear-z', 'geometry:linear-x', 'geometry:linear-int',
                     'geometry:linear-moved', 'geometry:partial-collinear', 'geometry:planar-xy', 'geometry:lattice',
                     'anchor:collinear', 'anchor:generic', 'scale:one', 'scale:uniform', 'placement:far',
                     'placement:on-atoms', 'shipped-pair', 'sequence:construction-object-after-other-calls')
@@ -101,7 +101,14 @@ def run_gen(ctx, case):
             continue
         tpos = emmon.gen_target(rng, pos, placement)
         s = emmon.gen_scale(rng, scls)
-        refm, tgtm = emmon.build_pair(rng, edges, pos, tpos, multi_res=rng.random() < 0.2)
+        through_files = it % 10 == 3
+        refm, tgtm = emmon.build_pair(rng, edges, pos, tpos, multi_res=rng.random() < 0.2, files=through_files)
+        if through_files:
+            pos = np.array(refm.atoms_positions)          # the three-decimal coordinates of the file
+            if not emmon.frames_ok(n, edges, pos) or gen.min_pair_distance(pos) < 1e-3:
+                ctx.count('rejected_illconditioned_reference')
+                continue
+            ctx.hit('reference:through-the-parsers')
         w = {'edges': edges, 'ref': pos, 'target': tpos, 's': s, 'geometry': info['geometry']}
         try:
             emap = ExchangeMap(refm, tgtm, s)
